@@ -15,6 +15,7 @@ pub mod c14;
 pub mod c15;
 pub mod c16;
 pub mod c17;
+pub mod c18;
 pub mod c19;
 pub mod c20;
 
@@ -40,6 +41,7 @@ pub fn lookup(id: &str) -> Option<Arc<dyn Prop>> {
         "C15" => Arc::new(c15::C15),
         "C16" => Arc::new(c16::C16),
         "C17" => Arc::new(c17::C17),
+        "C18" => Arc::new(c18::C18),
         "C19" => Arc::new(c19::C19),
         "C20" => Arc::new(c20::C20),
         _ => return None,
